@@ -448,6 +448,8 @@ fn run_send(ctx: &RunCtx) -> RunOut {
     }
     let rec: Rc<RefCell<Obs>> = Default::default();
     let first_write: Rc<RefCell<Vec<(u64, u64)>>> = Default::default();
+    // reads the applied peer limit at judgement time (exact quiescence, everything delivered)
+    let final_probe: Rc<RefCell<Option<Box<dyn Fn() -> u64>>>> = Default::default();
     let done = Rc::new(Gate::default());
     let mut ex = Exec::new();
     ex.spurious = draw(3) == 1;
@@ -477,6 +479,7 @@ fn run_send(ctx: &RunCtx) -> RunOut {
         let rec = rec.clone();
         let done = done.clone();
         let fw = first_write.clone();
+        let fp = final_probe.clone();
         let regular = regular.clone();
         let trailers = trailers.clone();
         ex.spawn("client", async move {
@@ -490,6 +493,8 @@ fn run_send(ctx: &RunCtx) -> RunOut {
                 }
             };
             let probe = sr.clone();
+            let probe2 = sr.clone();
+            *fp.borrow_mut() = Some(Box::new(move || probe2.settings().verif_max_field_section_size()));
             net::set_first_write_hook(Some(Box::new(move |id| {
                 if id & 3 == 0 {
                     fw.borrow_mut().push((id, probe.settings().verif_max_field_section_size()));
@@ -544,6 +549,7 @@ fn run_send(ctx: &RunCtx) -> RunOut {
         let regular = regular.clone();
         let trailers = trailers.clone();
         let fw = first_write.clone();
+        let fp = final_probe.clone();
         ex.spawn("server", async move {
             let mut b = h3::server::builder();
             b.send_grease(draw(2) == 1);
@@ -555,6 +561,8 @@ fn run_send(ctx: &RunCtx) -> RunOut {
                 }
             };
             let shared = c.inner.shared.clone();
+            let shared2 = c.inner.shared.clone();
+            *fp.borrow_mut() = Some(Box::new(move || shared2.settings().verif_max_field_section_size()));
             net::set_first_write_hook(Some(Box::new(move |id| {
                 if id & 3 == 0 {
                     fw.borrow_mut().push((id, shared.settings().verif_max_field_section_size()));
@@ -614,6 +622,14 @@ fn run_send(ctx: &RunCtx) -> RunOut {
         let closes = n.closes_by(h3side);
         if !closes.is_empty() || o.driver.is_some() {
             return Err(mk("C10.connection_error", format!("connection closed {:?} / driver {:?}", closes, o.driver)));
+        }
+        // exact quiescence, no connection error, the peer's SETTINGS completely delivered: the advertised limit
+        // must be the one in force now, whatever was sent before it arrived (it cannot be honoured otherwise)
+        if let Some(probe) = final_probe.borrow().as_ref() {
+            let applied = probe();
+            if applied != p_limit {
+                return Err(mk("C10.peer_limit_not_applied", format!("at quiescence the peer limit in force is {applied} although SETTINGS advertising {p_limit} were delivered")));
+            }
         }
         let wire = headers_sizes_on_wire(&n, 0, h3side).map_err(|e| mk("C10.wire_undecodable", e))?;
         let fw_limit = first_write.borrow().iter().find(|(id, _)| *id == 0).map(|(_, l)| *l);
